@@ -79,6 +79,13 @@ static bool is_hash(Token *tok) {
   return tok->at_bol && !tok->origin && equal(tok, "#");
 }
 
+// Returns true if tok begins the directive `name`. The directive name
+// has to be on the same line as the "#": a "#" alone on its line is a
+// null directive, and the next line is ordinary text.
+static bool is_directive(Token *tok, char *name) {
+  return is_hash(tok) && !tok->next->at_bol && equal(tok->next, name);
+}
+
 // Some preprocessor directives such as #include allow extraneous
 // tokens before newline. This function skips such tokens.
 static Token *skip_line(Token *tok) {
@@ -165,13 +172,12 @@ static Token *append(Token *tok1, Token *tok2) {
 
 static Token *skip_cond_incl2(Token *tok) {
   while (tok->kind != TK_EOF) {
-    if (is_hash(tok) &&
-        (equal(tok->next, "if") || equal(tok->next, "ifdef") ||
-         equal(tok->next, "ifndef"))) {
+    if (is_directive(tok, "if") || is_directive(tok, "ifdef") ||
+        is_directive(tok, "ifndef")) {
       tok = skip_cond_incl2(tok->next->next);
       continue;
     }
-    if (is_hash(tok) && equal(tok->next, "endif"))
+    if (is_directive(tok, "endif"))
       return tok->next->next;
     tok = tok->next;
   }
@@ -182,16 +188,14 @@ static Token *skip_cond_incl2(Token *tok) {
 // Nested `#if` and `#endif` are skipped.
 static Token *skip_cond_incl(Token *tok) {
   while (tok->kind != TK_EOF) {
-    if (is_hash(tok) &&
-        (equal(tok->next, "if") || equal(tok->next, "ifdef") ||
-         equal(tok->next, "ifndef"))) {
+    if (is_directive(tok, "if") || is_directive(tok, "ifdef") ||
+        is_directive(tok, "ifndef")) {
       tok = skip_cond_incl2(tok->next->next);
       continue;
     }
 
-    if (is_hash(tok) &&
-        (equal(tok->next, "elif") || equal(tok->next, "else") ||
-         equal(tok->next, "endif")))
+    if (is_directive(tok, "elif") || is_directive(tok, "else") ||
+        is_directive(tok, "endif"))
       break;
     tok = tok->next;
   }
@@ -890,7 +894,8 @@ static char *detect_include_guard(Token *tok) {
 
   // Read until the end of the file.
   while (tok->kind != TK_EOF) {
-    if (!is_hash(tok)) {
+    // A "#" alone on its line is a null directive.
+    if (!is_hash(tok) || tok->next->at_bol) {
       tok = tok->next;
       continue;
     }
@@ -985,6 +990,11 @@ static Token *preprocess2(Token *tok) {
 
     Token *start = tok;
     tok = tok->next;
+
+    // `#`-only line is legal. It's called a null directive. The next
+    // line is not part of it, whatever its first word is.
+    if (tok->at_bol)
+      continue;
 
     if (equal(tok, "include")) {
       bool is_dquote;
@@ -1111,10 +1121,6 @@ static Token *preprocess2(Token *tok) {
 
     if (equal(tok, "error"))
       error_tok(tok, "error");
-
-    // `#`-only line is legal. It's called a null directive.
-    if (tok->at_bol)
-      continue;
 
     error_tok(tok, "invalid preprocessor directive");
   }
